@@ -664,7 +664,7 @@ def correspondence(rep, proof, tier, rng, found_input):
         c = cases[ci]
         rep.violation({"kind": "broken-correspondence", "correspondence": "Mini.aexec (per-node value) vs NameCheckVisitor per-node inferred_value",
                        "input": {"kind": "mini", "prog": c["prog"], "src": c["src"]}, "node": c["keys"].get(lab), "node_kind": kn,
-                       "observed": c["impl_str"].get(lab), "model": m, "impl_canonical": impl}, no_failing_input=True)
+                       "observed": json.dumps(impl)[:300], "model": m, "impl_canonical": impl}, no_failing_input=True)
     # run_check = Some false outside the guard is the model reproducing the == defect; inside the guard it contradicts the theorem
     for ci, arg in run_false[:50]:
         c = cases[ci]
